@@ -153,6 +153,39 @@ theorem etched_named (st : State) (blk : Block) (t : Nat) (tx : Tx) (art : Artif
       subst he
       rfl
 
+theorem etched_named_iff (st st' : State) (blk : Block) (t : Nat) (tx : Tx) (art : Artifact)
+    (rune : Nat) (he : etchingOf art = some (some rune)) (id : RuneId) (r : Nat) :
+    etched st blk t tx art = .ok (st', some (id, r)) ↔
+      (st' = st ∧ id = ⟨blk.height, t⟩ ∧ r = rune ∧ blk.minimumRune ≤ rune ∧ rune < RESERVED ∧
+        AL.get st.rune2id rune = none ∧ txCommitsToRune blk.height rune tx.inputs = .ok true) := by
+  rw [etched_named st blk t tx art rune he]
+  by_cases hbad : rune < blk.minimumRune ∨ rune ≥ RESERVED ∨ AL.contains st.rune2id rune = true
+  · rw [if_pos hbad]
+    constructor
+    · intro h; simp at h
+    · rintro ⟨_, _, _, h1, h2, h3, _⟩
+      rcases hbad with h | h | h
+      · omega
+      · omega
+      · simp [AL.contains, h3] at h
+  · rw [if_neg hbad]
+    have hb : blk.minimumRune ≤ rune ∧ rune < RESERVED ∧ AL.get st.rune2id rune = none := by
+      refine ⟨by omega, by omega, ?_⟩
+      cases hg : AL.get st.rune2id rune with
+      | none => rfl
+      | some v => exact absurd (Or.inr (Or.inr (by simp [AL.contains, hg]))) hbad
+    cases hc : txCommitsToRune blk.height rune tx.inputs with
+    | panic s => simp
+    | err e => simp
+    | ok b =>
+      cases b with
+      | false => simp
+      | true =>
+        simp only [Outcome.ok.injEq, Prod.mk.injEq, Option.some.injEq]
+        constructor
+        · rintro ⟨rfl, rfl, rfl⟩; exact ⟨rfl, rfl, rfl, hb.1, hb.2.1, hb.2.2, trivial⟩
+        · rintro ⟨rfl, rfl, rfl, _⟩; exact ⟨rfl, rfl, rfl⟩
+
 /-- an unnamed cenotaph etching does not exist: a cenotaph only keeps a *name* -/
 theorem etchingOf_cenotaph_unnamed (m : Option RuneId) : etchingOf (.cenotaph none m) = none := rfl
 
